@@ -521,13 +521,10 @@ Qed.
    Nothing is asked after a literal, a list or a map.  After a word or a number: the text does not continue it
    ([cont_ok], Print.v), it begins with an ASCII byte (every token of the grammar does), and after a path it is not a
    path separator followed by an identifier. *)
-Definition hd_ascii (k : list byte) : bool := hd_sat (fun b => N.ltb (bn b) 128) k.
 Definition cfollow (v : cconst) (k : list byte) : Prop :=
   const_ends_word v = true -> cont_ok v k = true /\ hd_ascii k = true /\ (const_is_path v = true -> sepfollow lf k).
 
 Lemma bs_endc b : blank_start b = true -> endc b = true.
-Proof. destruct b; vm_compute; intro H; try reflexivity; discriminate H. Qed.
-Lemma bs_ascii b : blank_start b = true -> N.ltb (bn b) 128 = true.
 Proof. destruct b; vm_compute; intro H; try reflexivity; discriminate H. Qed.
 Lemma wstopc_ascii b : wstopc b = true -> N.ltb (bn b) 128 = true.
 Proof. unfold wstopc. intros H. bsplit H. exact H. Qed.
